@@ -77,12 +77,22 @@ impl HistSpace for Space {
 pub fn for_index_text(i: u32) -> Option<String> { hdk::Path::for_index(i as usize).ok().map(|p| p.to_string()) }
 
 pub fn run(ctx: &'static Ctx) {
-    let seed = filler_bytes(ctx.seed, 0xC14, 64);
+    let seed = filler_bytes(ctx.seed, 0xC14, 64); let curve = Curve::new();
     bfs(ctx, Space { depth: if ctx.quick() { 2 } else { 3 }, toks: tokens(), seed: seed.clone(), curve: Curve::new(), label: "bfs-path-tokens" });
     if ctx.thorough() { let few: Vec<String> = ["0", "0'", "2147483647'", "2147483648", "", "x", "+1", "01"].iter().map(|s| s.to_string()).collect(); bfs(ctx, Space { depth: 6, toks: few, seed: seed.clone(), curve: Curve::new(), label: "bfs-path-tokens-deep" }); }
+    // structure beyond the BFS depth: a line of distinct valid components of depth d with ONE token (valid or defective)
+    // substituted at position p - every position for d <= 12, first / middle / last beyond (fixed-capacity component
+    // stores, depth counters of every width)
+    let subs: Vec<String> = ["7", "7'", "2147483647", "2147483647'", "2147483648", "2147483648'", "4294967296", "", "x", "-1", "1.5", "0x1", "+1", "01", "1''", "'", " 1", "1 "].iter().map(|s| s.to_string()).collect();
+    let mut deep: Vec<(usize, usize, usize)> = Vec::new(); // (depth, position, substitute)
+    for d in (3..=12usize).chain([15, 16, 17, 31, 32, 33, 63, 64, 65, 127, 128, 129, 255, 256, 257, 300]) { let ps: Vec<usize> = if d <= 12 { (0..d).collect() } else { vec![0, d / 2, d - 2, d - 1] }; for p in ps { for k in 0..subs.len() { deep.push((d, p, k)); } } }
+    ctx.sweep("deep-line-one-substitution", "lines m/1/2'/3/4'/... of depth 3..=12 with one of 18 tokens (7 valid spellings and bounds, 11 defective ones) substituted at every position, and of depth 15..300 around every power of two at the first, middle, last-but-one and last position: the reference grammar's verdict, canonical print-back and the reference key", deep.len() as u64, |i| {
+        let (d, p, k) = deep[i as usize];
+        let comps: Vec<String> = (0..d).map(|j| if j == p { subs[k].clone() } else { format!("{}{}", j + 1, if j % 2 == 1 { "'" } else { "" }) }).collect();
+        check_text(ctx, "deep-line-one-substitution", i, &format!("m/{}", comps.join("/")), &seed, &curve);
+    });
     // default account path
     let idx: Vec<usize> = vec![0, 1, 2, 7, 1000, 65536, 0x7fff_fffe, 0x7fff_ffff];
-    let curve = Curve::new();
     ctx.sweep("for-index", "Path::for_index(i) for i in {0,1,2,7,1000,65536,2^31-2,2^31-1}", idx.len() as u64, |k| {
         let i = idx[k as usize];
         let replay = json!({"sweep": "for-index", "index": k, "entry": "hdk::Path::for_index", "account_index": i});
